@@ -43,6 +43,7 @@ def floors(m, tier):
             "GetFromAll(non-default config) comparisons (second data configuration)": (c.get("all_calls_non_default_config", 0), u * k // 40),
             "get_one/get_data/get_attr": (c.get("single_calls", 0), u * 5),
             "single-record calls on types without getter": (c.get("no_getter_single_calls", 0), u // 2),
+            "GetFromAll.get_data compared": (c.get("GetFromAll_get_data", 0), u * 2),
             "get_data with a string / uri argument": (c.get("get_data_string_argument", 0), u * 3)}
 
 
@@ -146,6 +147,12 @@ def check_get(rec, lab, conf, store, c, s, attributes, encname, case):
             d = dict(g.get_data(x, sid_encode=ENC[encname], **kw))
             if d != r:
                 rec.violation("get_data_differs", dict(cs, sid=str(x)), "%r vs %r" % (d, r))
+            # GetFromAll's single-record calls answer like the configured Getter of that type
+            if c == lab.default_config and conf.get_getter_for(x) is not None:
+                da = dict(GetFromAll().get_data(x, sid_encode=ENC[encname], **kw))
+                rec.count("GetFromAll_get_data")
+                if da != r:
+                    rec.violation("GetFromAll_get_data_differs", dict(cs, sid=str(x)), "%r vs %r" % (da, r))
             # the same Sid given as its string / its uri: the record of that Sid all the same (the encoder always gets the Sid)
             for form, arg in (("string", str(x)), ("uri", x.uri)):
                 if form == "string" and Sid(str(x)) != x:
